@@ -297,12 +297,44 @@ class PeerStream(simnet.MemStream):
         raise rt.Unobservable("serve() would block forever")
 
 
+def _snapshot_defaults(cfg):
+    return dict((k, (set(v) if isinstance(v, (set, frozenset)) else v)) for k, v in cfg.items())
+
+
+def _restore_defaults(cfg, snap):
+    """put DEFAULT_CONFIG back (in place, the safe_attrs SET OBJECT included); returns what had changed"""
+    changed = []
+    for k, v in snap.items():
+        cur = cfg.get(k)
+        if isinstance(v, set):
+            if set(cur) != v:
+                changed.append("%s: +%s -%s" % (k, sorted(set(cur) - v)[:6], sorted(v - set(cur))[:6]))
+                cur.clear()
+                cur.update(v)
+        elif cur != v:
+            changed.append("%s: %r -> %r" % (k, v, cur))
+            cfg[k] = v
+    for k in [k for k in cfg if k not in snap]:
+        changed.append("new key %s" % k)
+        del cfg[k]
+    return changed
+
+
+SECOND_CONFIGS = [
+    None, None,
+    dict(safe_attrs=set(["secret", "secret_m", "pub", "pub_m", "poke", "_priv", "_hidden", "secret_call", "__dunder_secret__",
+                         "state", "tag"]), allow_public_attrs=True),
+    dict(safe_attrs=set(["secret", "poke", "secret_call", "_priv"]), allow_all_attrs=True, allow_setattr=True, allow_delattr=True),
+    dict(allow_public_attrs=True, allow_all_attrs=True, allow_setattr=True, allow_pickle=True),
+]
+
+
 def frame(payload):
     return struct.pack("!LB", len(payload), 0) + payload + b"\x00"
 
 
 class Session:
-    def __init__(self, config=None, second=True, second_phase="holding"):
+    def __init__(self, config=None, second=True, second_phase="holding", second_cfg=None, second_first=True):
         import rpyc  # noqa: F401
         from rpyc.core.channel import Channel
         rt.install()
@@ -322,6 +354,8 @@ class Session:
         self.other_ids = []
         self.second = second
         self.second_phase = second_phase
+        self.second_cfg = second_cfg        # None = default; else the OTHER connection's own (permissive) configuration
+        self.second_first = second_first    # is the other connection opened before or after the one under attack
         self.ended = False
         self.sent = 0
 
@@ -334,13 +368,13 @@ class Session:
                     rt.PICKLE_LOG, rt.IMPORT_LOG, IMPORTED):
             del lst[:]
         self.modules_before = set(sys.modules)
-        if self.second:
+        def open_second():
             # a second connection of the same process to the same service, whose well-behaved peer fetched by-reference
             # objects through the real `_box` (the root, two objects the service keeps alive, a fresh one) and - depending
             # on `second_phase` - still holds them, has released them, or has closed its connection
             p2, s2 = PeerStream(self.net, "A2"), PeerStream(self.net, "B2")
             p2.peer, s2.peer = s2, p2
-            self.conn2 = self.svc._connect(self.Channel(s2, True), {})
+            self.conn2 = self.svc._connect(self.Channel(s2, True), dict(self.second_cfg or {}))
             from rpyc.core import brine
 
             def ask2(msgs):
@@ -360,14 +394,23 @@ class Session:
                 ask2([(1, 20 + k, (15, (2, ((3, idp), (1, 100))))) for k, idp in enumerate(self.other_ids[1:])])
             elif self.second_phase == "closed":
                 self.conn2.close()
+        from rpyc.core import protocol as _protocol
+        self.default_before = _snapshot_defaults(_protocol.DEFAULT_CONFIG)
+        if self.second and self.second_first:
+            open_second()
         self.conn = self.svc._connect(self.Channel(self.srv, True), self.config)
+        if self.second and not self.second_first:
+            open_second()
         self.rec = rt.Recorder(self.conn, self.svc)
         rt.REC = self.rec
         return self
 
     def __exit__(self, *a):
         import rpyc.lib
+        from rpyc.core import protocol as _protocol
         rt.REC = None
+        # the process-wide defaults must be what they were (sessions are independent; a change is reported)
+        self.default_changed = _restore_defaults(_protocol.DEFAULT_CONFIG, self.default_before)
         try:
             self.conn.close()
         except Exception:  # noqa
@@ -871,8 +914,64 @@ class Gen:
             out.append(("v", (1, self.seq + 100, (h, args))))
         return out
 
+    def readwrite_burst(self):
+        """read an exposed / safe name on a held canary, then write / delete / call the SAME name on the same object or on
+        another held object of the same class (setattr and delattr are off by default: the statement wants refusals)"""
+        r = self.r
+        mine = [i for i in self.held if type(i) is tuple and len(i) == 3 and type(i[0]) is str
+                and i[0].startswith("handlers_world.") and not i[0].endswith("CanarySvc")]
+        if not mine:
+            return self.fetch_burst()
+        a = r.choice(mine)
+        same = [i for i in mine if i[0] == a[0]]
+        name = r.choice(["x", "exposed_x", "only", "exposed_only", "m", "exposed_m", "__repr__", "__str__", "__doc__", "__lt__",
+                         "__hash__", "__call__", "self", "exposed_self"])
+        out = []
+
+        def req(h, items):
+            self.seq += 1
+            out.append(("v", (1, self.seq + 100, (h, (2, tuple(items))))))
+        req(4, [(3, a), (1, name)])
+        for _ in range(r.range(1, 3)):
+            b = r.choice(same)
+            k = r.below(4)
+            if k == 0:
+                req(6, [(3, b), (1, name), (1, r.choice([0, "overwritten", None]))])
+            elif k == 1:
+                req(5, [(3, b), (1, name)])
+            elif k == 2:
+                req(8, [(3, b), (1, name), (1, ()), (1, ())])
+            else:
+                req(4, [(3, b), (1, name)])
+        return out
+
+    def denied_names_burst(self):
+        """the names another connection of this process may have been configured to allow: on THIS (default) connection
+        getattr / callattr / cmp with them must be refused"""
+        r = self.r
+        ids = [i for i in self.held if type(i) is tuple and len(i) == 3]
+        if not ids:
+            return self.fetch_burst()
+        out = []
+        for _ in range(r.range(1, 3)):
+            o = (3, r.choice(ids))
+            n = (1, r.choice(["secret", "secret_m", "pub", "pub_m", "poke", "_priv", "_hidden", "secret_call", "__dunder_secret__"]))
+            self.seq += 1
+            k = r.below(3)
+            if k == 0:
+                out.append(("v", (1, self.seq + 100, (4, (2, (o, n))))))
+            elif k == 1:
+                out.append(("v", (1, self.seq + 100, (8, (2, (o, n, (1, ()), (1, ())))))))
+            else:
+                out.append(("v", (1, self.seq + 100, (11, (2, (o, (1, 0), n))))))
+        return out
+
     def hostile_burst(self):
         r = self.r
+        if self.held and r.chance(1, 7):
+            return self.readwrite_burst()
+        if self.held and r.chance(1, 9):
+            return self.denied_names_burst()
         if r.chance(1, 6):
             return self.inspect_burst()
         if self.s.other_ids and r.chance(1, 8):
@@ -902,7 +1001,9 @@ def run_session(rng, n_bursts, config=None, cfg_text="default"):
     """one generated session; returns (session object after completion, description of what was sent)"""
     desc = []
     phase = rng.choice(["holding", "holding", "released", "closed"])
-    with Session(config=config, second_phase=phase) as s:
+    second_cfg = rng.choice(SECOND_CONFIGS)
+    second_first = rng.chance(1, 2)
+    with Session(config=config, second_phase=phase, second_cfg=second_cfg, second_first=second_first) as s:
         g = Gen(rng, s)
         plan = [g.setup_burst] if rng.chance(9, 10) else []
         for b in range(n_bursts):
@@ -921,6 +1022,9 @@ def run_session(rng, n_bursts, config=None, cfg_text="default"):
             got = s.burst(msgs)
             g.learn(got)
         s.phase = phase
+        s.second_desc = "other connection: %s, opened %s, config %s" % (
+            phase, "first" if second_first else "second",
+            "default" if not second_cfg else sorted((k, sorted(v) if isinstance(v, set) else v) for k, v in second_cfg.items()))
         s.final_impl = s.impl_line()
         s.final_model_line = s.model_line(cfg_text)
         s.gen = g
